@@ -28,19 +28,32 @@ use barter_data::{
         okx::{Okx, trade::OkxTrades},
     },
     instrument::{InstrumentData, MarketInstrumentData},
+    streams::builder::dynamic::{
+        indexed::{generate_indexed_market_data_subscription_batches, index_market_data_subscription_batches},
+        validate_batches,
+    },
     subscriber::mapper::{SubscriptionMapper, WebSocketSubMapper},
     subscription::{
-        Subscription, SubscriptionKind, SubscriptionMeta,
+        SubKind, Subscription, SubscriptionKind, SubscriptionMeta,
         book::{OrderBookL1, OrderBooksL1},
         trade::{PublicTrade, PublicTrades},
     },
     transformer::{ExchangeTransformer, stateless::StatelessTransformer},
 };
 use barter_instrument::{
-    Keyed, Side,
+    Keyed, Side, Underlying,
+    asset::Asset,
     exchange::ExchangeId,
+    index::IndexedInstruments,
     instrument::{
-        kind::option::{OptionExercise, OptionKind},
+        Instrument, InstrumentIndex,
+        kind::{
+            InstrumentKind,
+            future::FutureContract,
+            option::{OptionContract, OptionExercise, OptionKind},
+            perpetual::PerpetualContract,
+        },
+        quote::InstrumentQuoteAsset,
         market_data::{
             MarketDataInstrument,
             kind::{MarketDataFutureContract, MarketDataInstrumentKind, MarketDataOptionContract},
@@ -60,6 +73,8 @@ const L_EXCHANGE: &str = "C13.bounded.event_carries_exchange_id";
 const L_FIELDS: &str = "C13.bounded.price_amount_side_as_stated";
 const L_TIME: &str = "C13.bounded.exchange_time_as_stated";
 const L_UNSUB: &str = "C13.bounded.unsubscribed_market_is_unidentifiable";
+const L_IDX_EVENT: &str = "C13.bounded.indexed_event_carries_index_of_its_instrument";
+const L_IDX_DISTINCT: &str = "C13.bounded.indexed_distinct_instruments_distinct_indices";
 
 // ------------------------------------------------------------------------------------------------- venue side model
 #[derive(Clone, Copy, Debug, PartialEq, Eq)]
@@ -68,7 +83,7 @@ enum V { BinanceSpot, BinanceFut, Okx, Kraken, Coinbase, BybitSpot, BybitPerp, G
 enum SK { Trades, L1 }
 
 #[derive(Clone, Copy, Debug, PartialEq, Eq)]
-enum IK { Spot, Perp, Fut(i64), Opt { call: bool, strike: i64, expiry: i64 } }
+enum IK { Spot, Perp, Fut(i64), Opt { call: bool, strike: i64, expiry: i64, american: bool } }
 #[derive(Clone, Copy, Debug, PartialEq, Eq)]
 struct Inst { base: &'static str, quote: &'static str, kind: IK }
 
@@ -83,8 +98,8 @@ impl Inst {
             IK::Spot => MarketDataInstrumentKind::Spot,
             IK::Perp => MarketDataInstrumentKind::Perpetual,
             IK::Fut(e) => MarketDataInstrumentKind::Future(MarketDataFutureContract { expiry: date(e) }),
-            IK::Opt { call, strike, expiry } => MarketDataInstrumentKind::Option(MarketDataOptionContract {
-                kind: if call { OptionKind::Call } else { OptionKind::Put }, exercise: OptionExercise::European, expiry: date(expiry), strike: Decimal::from(strike),
+            IK::Opt { call, strike, expiry, american } => MarketDataInstrumentKind::Option(MarketDataOptionContract {
+                kind: if call { OptionKind::Call } else { OptionKind::Put }, exercise: if american { OptionExercise::American } else { OptionExercise::European }, expiry: date(expiry), strike: Decimal::from(strike),
             }),
         }
     }
@@ -112,12 +127,12 @@ fn venue_market(v: V, i: &Inst) -> String {
             IK::Spot => format!("{b}-{q}"),
             IK::Perp => format!("{b}-{q}-SWAP"),
             IK::Fut(e) => format!("{b}-{q}-{}", date(e).format("%y%m%d")),
-            IK::Opt { call, strike, expiry } => format!("{b}-{q}-{}-{strike}-{}", date(expiry).format("%y%m%d"), cp(call)),
+            IK::Opt { call, strike, expiry, .. } => format!("{b}-{q}-{}-{strike}-{}", date(expiry).format("%y%m%d"), cp(call)),
         },
         V::GateSpot | V::GateFutUsd | V::GateFutBtc | V::GatePerpUsd | V::GatePerpBtc | V::GateOpt => match i.kind {
             IK::Spot | IK::Perp => format!("{b}_{q}"),
             IK::Fut(e) => format!("{b}_{q}_QUARTERLY_{}", date(e).format("%Y%m%d")),
-            IK::Opt { call, strike, expiry } => format!("{b}_{q}-{}-{strike}-{}", date(expiry).format("%Y%m%d"), cp(call)),
+            IK::Opt { call, strike, expiry, .. } => format!("{b}_{q}-{}-{strike}-{}", date(expiry).format("%Y%m%d"), cp(call)),
         },
     }
 }
@@ -200,8 +215,8 @@ where
 
 struct St { seen: HashSet<&'static str>, n: u64 }
 
-fn judge<K: PartialEq + Debug, E: Observe>(st: &mut St, v: V, sk: SK, flavour: &str, list: &[Inst], keys: &[K], msgs: &[Msg], payloads: &[String], outs: Result<Outs<K, E>, String>) {
-    let input = |k: usize| format!("{v:?} {sk:?}, instruments as {flavour}; subscriptions (in order) [{}]; message for market {:?}: {}", list.iter().enumerate().map(|(j, i)| format!("#{j} {}/{} {:?} (venue market {})", i.base, i.quote, i.kind, venue_market(v, i))).collect::<Vec<_>>().join(", "), msgs[k].market, payloads[k]);
+fn judge<K: PartialEq + Debug, E: Observe>(st: &mut St, v: V, sk: SK, l_key: &'static str, flavour: &dyn Fn() -> String, list: &[Inst], keys: &[K], msgs: &[Msg], payloads: &[String], outs: Result<Outs<K, E>, String>) {
+    let input = |k: usize| format!("{v:?} {sk:?}, instruments as {}; subscriptions (in order) [{}]; message for market {:?}: {}", flavour(), list.iter().enumerate().map(|(j, i)| format!("#{j} {}/{} {:?} (venue market {})", i.base, i.quote, i.kind, venue_market(v, i))).collect::<Vec<_>>().join(", "), msgs[k].market, payloads[k]);
     let outs = match outs { Ok(o) => o, Err(e) => { if st.seen.insert(L_SUBSCRIBED) { report(L_SUBSCRIBED, input(0), format!("transformer initialisation failed: {e}"), "transformer".into()); } return; } };
     for (k, (m, out)) in msgs.iter().zip(outs).enumerate() {
         st.n += 1;
@@ -222,7 +237,7 @@ fn judge<K: PartialEq + Debug, E: Observe>(st: &mut St, v: V, sk: SK, flavour: &
         }
         for (ev, (fields, time)) in out.into_iter().flatten().zip(want) {
             if !subscribed.iter().any(|j| keys[*j] == ev.instrument) {
-                fail(L_KEY, format!("event carries instrument key {:?}", ev.instrument), format!("key of subscription #{:?}: {:?}", subscribed, subscribed.iter().map(|j| &keys[*j]).collect::<Vec<_>>()));
+                fail(l_key, format!("event carries instrument key {:?}", ev.instrument), format!("key of subscription #{:?}: {:?}", subscribed, subscribed.iter().map(|j| &keys[*j]).collect::<Vec<_>>()));
             }
             if ev.exchange != exchange_id(v) { fail(L_EXCHANGE, format!("{:?}", ev.exchange), format!("{:?}", exchange_id(v))); }
             if ev.kind.fields() != fields { fail(L_FIELDS, format!("{:?}", ev.kind.fields()), format!("{fields:?}")); }
@@ -270,14 +285,14 @@ macro_rules! venue {
             if $computed_markets {
                 let keys: Vec<MarketDataInstrument> = list.iter().map(|i| i.mdi()).collect();
                 let subs: Vec<Subscription<$Ex, MarketDataInstrument, $K>> = keys.iter().map(|i| Subscription::new(<$Ex>::default(), i.clone(), $kind)).collect();
-                judge($st, v, sk, "MarketDataInstrument (key = the instrument)", &list, &keys, &msgs, &payloads, drive::<$Ex, MarketDataInstrument, $K, $M>(&subs, &payloads));
+                judge($st, v, sk, L_KEY, &|| "MarketDataInstrument (key = the instrument)".into(), &list, &keys, &msgs, &payloads, drive::<$Ex, MarketDataInstrument, $K, $M>(&subs, &payloads));
                 let keys: Vec<u32> = (0..list.len() as u32).collect();
                 let subs: Vec<Subscription<$Ex, Keyed<u32, MarketDataInstrument>, $K>> = list.iter().zip(&keys).map(|(i, k)| Subscription::new(<$Ex>::default(), Keyed::new(*k, i.mdi()), $kind)).collect();
-                judge($st, v, sk, "Keyed<#, MarketDataInstrument>", &list, &keys, &msgs, &payloads, drive::<$Ex, Keyed<u32, MarketDataInstrument>, $K, $M>(&subs, &payloads));
+                judge($st, v, sk, L_KEY, &|| "Keyed<#, MarketDataInstrument>".into(), &list, &keys, &msgs, &payloads, drive::<$Ex, Keyed<u32, MarketDataInstrument>, $K, $M>(&subs, &payloads));
             }
             let keys: Vec<u32> = (0..list.len() as u32).collect();
             let subs: Vec<Subscription<$Ex, MarketInstrumentData<u32>, $K>> = list.iter().zip(&keys).map(|(i, k)| Subscription::new(<$Ex>::default(), MarketInstrumentData { key: *k, name_exchange: InstrumentNameExchange::new(venue_market(v, i)), kind: i.kind() }, $kind)).collect();
-            judge($st, v, sk, "MarketInstrumentData<#> (name_exchange = venue market)", &list, &keys, &msgs, &payloads, drive::<$Ex, MarketInstrumentData<u32>, $K, $M>(&subs, &payloads));
+            judge($st, v, sk, L_KEY, &|| "MarketInstrumentData<#> (name_exchange = venue market)".into(), &list, &keys, &msgs, &payloads, drive::<$Ex, MarketInstrumentData<u32>, $K, $M>(&subs, &payloads));
         }
     }};
 }
@@ -285,7 +300,7 @@ macro_rules! venue {
 fn universe(v: V) -> Vec<Inst> {
     let pairs: [(&'static str, &'static str); 7] = [("btc", "usdt"), ("BtC", "usdt"), ("btcu", "sdt"), ("1000btc", "usdt"), ("btc", "usd"), ("eth", "usdt"), ("eth", "BTC")];
     let of = |kind: IK, n: usize| pairs.iter().take(n).map(|(base, quote)| Inst { base, quote, kind }).collect::<Vec<_>>();
-    let opt = |base, call, strike, expiry| Inst { base, quote: "usdt", kind: IK::Opt { call, strike, expiry } };
+    let opt = |base, call, strike, expiry| Inst { base, quote: "usdt", kind: IK::Opt { call, strike, expiry, american: false } };
     match v {
         V::BinanceSpot | V::Kraken | V::Coinbase | V::BybitSpot | V::GateSpot => of(IK::Spot, 7),
         V::BinanceFut | V::BybitPerp | V::GatePerpUsd | V::GatePerpBtc | V::Bitmex => of(IK::Perp, 7),
@@ -298,6 +313,334 @@ fn universe(v: V) -> Vec<Inst> {
             // every message for the subscribed contract is answered with Unidentifiable.
             if known() { u.push(Inst { base: "btc", quote: "usdt", kind: IK::Fut(E3) }); }
             u.push(opt("btc", true, 35000, E1)); u.push(opt("btc", false, 35000, E1)); u.push(opt("btc", true, 350000, E1)); u }
+    }
+}
+
+// ------------------------------------------------------------------------------------------------- indexed dynamic path
+// The INDEXED dynamic stream builder (barter-data/src/streams/builder/dynamic/{mod,indexed}.rs) goes from an `IndexedInstruments`
+// collection to sockets in these steps, all driven here with the REAL code except the one that needs a network:
+//   (A) user subscriptions `Subscription<ExchangeId, MarketDataInstrument, SubKind>` --REAL `index_market_data_subscription_batches`-->
+//       `Subscription<ExchangeId, Keyed<InstrumentIndex, MarketDataInstrument>, SubKind>`, or
+//   (B) the collection itself --REAL `generate_indexed_market_data_subscription_batches`--> `Subscription<ExchangeId,
+//       MarketInstrumentData<InstrumentIndex>, SubKind>` (what `init_indexed_multi_exchange_market_stream` does);
+//   then `DynamicStreams::init`: REAL `validate_batches`, per batch sort + group by (exchange, sub kind) [re-stated in `chunks`: the
+//   original is inlined in `init`], per group re-typing to `Subscription<Connector, _, Kind>` [re-stated in `route!`: `init` opens the socket in
+//   the same expression], then per group one socket = REAL `WebSocketSubMapper::map` + REAL transformer (`drive`).
+// The oracle is independent of the matching code: the index an event must carry is looked up in `IndexedInstruments::instruments()` by the
+// (unique) internal name this harness gave to the instrument whose venue market the message names.
+
+const ALL_V: [V; 14] = [V::BinanceSpot, V::BinanceFut, V::Okx, V::Kraken, V::Coinbase, V::BybitSpot, V::BybitPerp, V::GateSpot, V::GateFutUsd, V::GateFutBtc, V::GatePerpUsd, V::GatePerpBtc, V::GateOpt, V::Bitmex];
+
+/// an instrument of an indexed collection: venue + instrument
+#[derive(Clone, Copy, Debug, PartialEq, Eq)]
+struct XI { v: V, i: Inst }
+/// a user subscription
+#[derive(Clone, Copy, Debug, PartialEq, Eq)]
+struct US { x: XI, sk: SK }
+
+fn sub_kind(sk: SK) -> SubKind { match sk { SK::Trades => SubKind::PublicTrades, SK::L1 => SubKind::OrderBooksL1 } }
+/// subscription kinds of this module that the venue serves
+fn sks(v: V) -> &'static [SK] { if matches!(v, V::BinanceSpot | V::BinanceFut | V::Kraken) { &[SK::Trades, SK::L1] } else { &[SK::Trades] } }
+
+impl XI {
+    fn market(&self) -> String { venue_market(self.v, &self.i) }
+    /// unique per distinct (venue, instrument)
+    fn name_internal(&self) -> String {
+        let tag = match self.i.kind {
+            IK::Spot => "spot".to_string(), IK::Perp => "perp".to_string(), IK::Fut(e) => format!("fut{e}"),
+            IK::Opt { call, strike, expiry, american } => format!("opt{}{strike}x{expiry}{}", if call { "c" } else { "p" }, if american { "a" } else { "e" }),
+        };
+        format!("{}-{}_{}-{tag}", exchange_id(self.v).as_str(), self.i.base, self.i.quote)
+    }
+    fn instrument(&self) -> Instrument<ExchangeId, Asset> {
+        let kind = match self.i.kind {
+            IK::Spot => InstrumentKind::Spot,
+            IK::Perp => InstrumentKind::Perpetual(PerpetualContract { contract_size: Decimal::ONE, settlement_asset: Asset::from(self.i.quote) }),
+            IK::Fut(e) => InstrumentKind::Future(FutureContract { contract_size: Decimal::ONE, settlement_asset: Asset::from(self.i.quote), expiry: date(e) }),
+            IK::Opt { call, strike, expiry, american } => InstrumentKind::Option(OptionContract {
+                contract_size: Decimal::ONE, settlement_asset: Asset::from(self.i.base), kind: if call { OptionKind::Call } else { OptionKind::Put },
+                exercise: if american { OptionExercise::American } else { OptionExercise::European }, expiry: date(expiry), strike: Decimal::from(strike),
+            }),
+        };
+        Instrument::new(exchange_id(self.v), self.name_internal(), self.market(), Underlying::new(self.i.base, self.i.quote), InstrumentQuoteAsset::UnderlyingQuote, kind, None)
+    }
+    fn describe(&self) -> String { format!("{:?} {}/{} {:?} (venue market {})", self.v, self.i.base, self.i.quote, self.i.kind, self.market()) }
+}
+
+/// two DIFFERENT instruments that the venue would report under one market name (options differing only in exercise style; "btc"+"usdt" vs
+/// "btcu"+"sdt" on venues that concatenate): never subscribed over one socket here, so that "the instrument subscribed under that market" is unique
+fn clash(a: &XI, b: &XI) -> bool { a.v == b.v && a.i != b.i && a.market() == b.market() }
+
+/// the index the collection gave to `x` (independent of `eq_market_data_instrument_kind` / `find_instrument`)
+fn index_of(ix: &IndexedInstruments, x: &XI) -> Option<InstrumentIndex> {
+    let name = x.name_internal();
+    ix.instruments().iter().find(|k| k.value.exchange.value == exchange_id(x.v) && k.value.name_internal.name().as_str() == name).map(|k| k.key)
+}
+fn holder(ix: &IndexedInstruments, world: &[XI], key: InstrumentIndex) -> String {
+    world.iter().find(|x| index_of(ix, x) == Some(key)).map(|x| x.describe()).unwrap_or_else(|| "no instrument of the collection".into())
+}
+fn describe_world(ix: &IndexedInstruments, world: &[XI]) -> String {
+    format!("IndexedInstruments of [{}]", world.iter().map(|x| format!("{} = {:?}", x.describe(), index_of(ix, x).map(|k| k.0))).collect::<Vec<_>>().join(", "))
+}
+fn describe_batches(batches: &[Vec<US>]) -> String {
+    batches.iter().map(|b| format!("[{}]", b.iter().map(|u| format!("{:?} of {}", u.sk, u.x.describe())).collect::<Vec<_>>().join(", "))).collect::<Vec<_>>().join(" ")
+}
+fn fail_once(st: &mut St, label: &'static str, input: &dyn Fn() -> String, observed: String, expected: String) { if st.seen.insert(label) { report(label, input(), observed, expected); } }
+fn clip(e: impl ToString) -> String { let s = e.to_string(); if s.len() > 400 { format!("{}...", s.chars().take(400).collect::<String>()) } else { s } }
+
+/// the instruments all collections are drawn from: per venue every instrument kind it serves; same pair on several venues; same base / same
+/// quote pairs; spot + perpetual + futures (different expiries) + options on one venue; options differing from the first one ONLY in Call/Put,
+/// only in strike, only in expiry, only in exercise style, only in base, only in quote
+fn indexed_universe() -> Vec<XI> {
+    let pairs: [(&'static str, &'static str); 5] = [("btc", "usdt"), ("btcu", "sdt"), ("btc", "usd"), ("eth", "usdt"), ("eth", "btc")];
+    let mut w = vec![];
+    for v in ALL_V {
+        let mut add = |(base, quote): (&'static str, &'static str), kind: IK| w.push(XI { v, i: Inst { base, quote, kind } });
+        let (spot, perp, fut, opt) = match v {
+            V::BinanceSpot | V::Kraken | V::Coinbase | V::BybitSpot | V::GateSpot => (true, false, false, false),
+            V::BinanceFut | V::BybitPerp | V::GatePerpUsd | V::GatePerpBtc | V::Bitmex => (false, true, false, false),
+            V::GateFutUsd | V::GateFutBtc => (false, false, true, false),
+            V::GateOpt => (false, false, false, true),
+            V::Okx => (true, true, true, true),
+        };
+        if spot { for p in pairs.iter().take(4) { add(*p, IK::Spot); } }
+        if perp { for p in [pairs[0], pairs[2], pairs[3]] { add(p, IK::Perp); } }
+        if fut {
+            add(pairs[0], IK::Fut(E1)); add(pairs[0], IK::Fut(E2)); add(pairs[3], IK::Fut(E1)); add(pairs[2], IK::Fut(E1));
+            if v == V::Okx { add(pairs[0], IK::Fut(E3)); }
+        }
+        if opt {
+            let o = |call, strike, expiry, american| IK::Opt { call, strike, expiry, american };
+            add(pairs[0], o(true, 35000, E1, false));
+            add(pairs[0], o(false, 35000, E1, false)); // only Call/Put
+            add(pairs[0], o(true, 350000, E1, false)); // only strike
+            add(pairs[0], o(true, 3500, E1, false)); // only strike
+            add(pairs[0], o(true, 35000, E2, false)); // only expiry
+            add(pairs[0], o(true, 35000, E1, true)); // only exercise style
+            add(pairs[0], o(false, 35000, E1, true)); // Call/Put + exercise style
+            add(pairs[3], o(true, 35000, E1, false)); // only base
+            add(pairs[2], o(true, 35000, E1, false)); // only quote
+        }
+    }
+    w
+}
+
+/// what `DynamicStreams::init` does between the subscription batches and the sockets: REAL `validate_batches`, then per batch the sort +
+/// grouping by (exchange, sub kind) of `init` (one socket per group)
+fn chunks<I: InstrumentData + Ord>(batches: Vec<Vec<Subscription<ExchangeId, I, SubKind>>>) -> Result<Vec<Vec<(ExchangeId, SubKind, Vec<Subscription<ExchangeId, I, SubKind>>)>>, String> {
+    let batches = validate_batches(batches).map_err(|e| e.to_string())?;
+    Ok(batches.into_iter().map(|mut batch| {
+        batch.sort_unstable_by_key(|sub| (sub.exchange, sub.kind));
+        let mut groups: Vec<(ExchangeId, SubKind, Vec<Subscription<ExchangeId, I, SubKind>>)> = vec![];
+        for sub in batch {
+            match groups.last_mut() { Some((e, k, g)) if *e == sub.exchange && *k == sub.kind => g.push(sub), _ => groups.push((sub.exchange, sub.kind, vec![sub])) }
+        }
+        groups
+    }).collect())
+}
+fn venue_of(exchange: ExchangeId, kind: SubKind) -> Option<(V, SK)> {
+    let v = ALL_V.into_iter().find(|v| exchange_id(*v) == exchange)?;
+    Some((v, match kind { SubKind::PublicTrades => SK::Trades, SubKind::OrderBooksL1 => SK::L1, _ => return None }))
+}
+
+/// one socket of the dynamic builder
+struct Chunk<'a, I> { v: V, sk: SK, subs: Vec<Subscription<ExchangeId, I, SubKind>>, flavour: &'a dyn Fn() -> String, list: &'a [Inst], keys: &'a [InstrumentIndex], msgs: &'a [Msg], payloads: &'a [String] }
+
+macro_rules! go {
+    ($st:expr, $c:expr, $I:ty, $Ex:ty, $K:ident, $M:ty) => {{
+        let c = $c;
+        let typed: Vec<Subscription<$Ex, $I, $K>> = c.subs.into_iter().map(|sub| Subscription::new(<$Ex>::default(), sub.instrument, $K)).collect();
+        judge($st, c.v, c.sk, L_IDX_EVENT, c.flavour, c.list, c.keys, c.msgs, c.payloads, drive::<$Ex, $I, $K, $M>(&typed, c.payloads))
+    }};
+}
+/// the (exchange, sub kind) -> (connector, kind) table of `DynamicStreams::init` (trades and L1 rows), with the transformer of the connector's StreamSelector
+macro_rules! route {
+    ($st:expr, $c:expr, $I:ty) => {{
+        let c: Chunk<$I> = $c;
+        match (c.v, c.sk) {
+            (V::BinanceSpot, SK::Trades) => go!($st, c, $I, BinanceSpot, PublicTrades, BinanceTrade),
+            (V::BinanceSpot, SK::L1) => go!($st, c, $I, BinanceSpot, OrderBooksL1, BinanceOrderBookL1),
+            (V::BinanceFut, SK::Trades) => go!($st, c, $I, BinanceFuturesUsd, PublicTrades, BinanceTrade),
+            (V::BinanceFut, SK::L1) => go!($st, c, $I, BinanceFuturesUsd, OrderBooksL1, BinanceOrderBookL1),
+            (V::Okx, SK::Trades) => go!($st, c, $I, Okx, PublicTrades, OkxTrades),
+            (V::Kraken, SK::Trades) => go!($st, c, $I, Kraken, PublicTrades, KrakenTrades),
+            (V::Kraken, SK::L1) => go!($st, c, $I, Kraken, OrderBooksL1, KrakenOrderBookL1),
+            (V::Coinbase, SK::Trades) => go!($st, c, $I, Coinbase, PublicTrades, CoinbaseTrade),
+            (V::BybitSpot, SK::Trades) => go!($st, c, $I, BybitSpot, PublicTrades, BybitMessage),
+            (V::BybitPerp, SK::Trades) => go!($st, c, $I, BybitPerpetualsUsd, PublicTrades, BybitMessage),
+            (V::GateSpot, SK::Trades) => go!($st, c, $I, GateioSpot, PublicTrades, GateioSpotTrade),
+            (V::GateFutUsd, SK::Trades) => go!($st, c, $I, GateioFuturesUsd, PublicTrades, GateioFuturesTrades),
+            (V::GateFutBtc, SK::Trades) => go!($st, c, $I, GateioFuturesBtc, PublicTrades, GateioFuturesTrades),
+            (V::GatePerpUsd, SK::Trades) => go!($st, c, $I, GateioPerpetualsUsd, PublicTrades, GateioFuturesTrades),
+            (V::GatePerpBtc, SK::Trades) => go!($st, c, $I, GateioPerpetualsBtc, PublicTrades, GateioFuturesTrades),
+            (V::GateOpt, SK::Trades) => go!($st, c, $I, GateioOptions, PublicTrades, GateioFuturesTrades),
+            (V::Bitmex, SK::Trades) => go!($st, c, $I, Bitmex, PublicTrades, BitmexTrade),
+            other => panic!("no connector row for {other:?}"),
+        }
+    }};
+}
+
+/// path (A): user subscriptions for instruments of (or absent from) the collection
+fn flow_indexed(st: &mut St, world: &[XI], ix: &IndexedInstruments, batches: &[Vec<US>], salt: usize, universe: &[XI]) {
+    let input = || format!("{}; user subscription batches {}", describe_world(ix, world), describe_batches(batches));
+    let user: Vec<Vec<Subscription<ExchangeId, MarketDataInstrument, SubKind>>> = batches.iter().map(|b| b.iter().map(|u| Subscription::new(exchange_id(u.x.v), u.x.i.mdi(), sub_kind(u.sk))).collect()).collect();
+    let flat: Vec<&US> = batches.iter().flatten().collect();
+    st.n += flat.len() as u64;
+    let all_present = flat.iter().all(|u| world.contains(&u.x));
+    let indexed = match index_market_data_subscription_batches(ix, user) {
+        Ok(indexed) => indexed,
+        Err(e) => {
+            if all_present { fail_once(st, L_IDX_EVENT, &input, format!("index_market_data_subscription_batches failed: {}", clip(e)), "every subscription keyed with the index of its instrument (all of them are in the collection)".into()); }
+            return;
+        }
+    };
+    if indexed.len() != batches.len() || indexed.iter().zip(batches).any(|(a, b)| a.len() != b.len()) {
+        fail_once(st, L_IDX_EVENT, &input, format!("batches of {:?} subscriptions", indexed.iter().map(Vec::len).collect::<Vec<_>>()), format!("batches of {:?} subscriptions", batches.iter().map(Vec::len).collect::<Vec<_>>()));
+        return;
+    }
+    let keys: Vec<InstrumentIndex> = indexed.iter().flatten().map(|sub| sub.instrument.key).collect();
+    // an instrument that is not in the collection has no index: it must never be given the index of another instrument
+    if !all_present {
+        for (u, key) in flat.iter().zip(&keys) {
+            if !world.contains(&u.x) {
+                fail_once(st, L_IDX_DISTINCT, &input, format!("the subscription for {} (NOT in the collection) was keyed {key:?}, the index of {}", u.x.describe(), holder(ix, world, *key)), "an index error: the instrument is not in the collection".into());
+            }
+        }
+        return;
+    }
+    for a in 0..flat.len() {
+        for b in a + 1..flat.len() {
+            if flat[a].x != flat[b].x && keys[a] == keys[b] {
+                fail_once(st, L_IDX_DISTINCT, &input, format!("subscriptions for {} and for {} are both keyed {:?}", flat[a].x.describe(), flat[b].x.describe(), keys[a]), format!("distinct indices {:?} and {:?}", index_of(ix, &flat[a].x), index_of(ix, &flat[b].x)));
+            }
+        }
+    }
+    let groups = match chunks(indexed) {
+        Ok(groups) => groups,
+        Err(e) => { fail_once(st, L_SUBSCRIBED, &input, format!("validate_batches rejected the indexed subscriptions: {}", clip(e)), "accepted: every (exchange, instrument kind, sub kind) is supported".into()); return; }
+    };
+    for (b, groups) in groups.into_iter().enumerate() {
+        for (exchange, kind, subs) in groups {
+            let Some((v, sk)) = venue_of(exchange, kind) else { fail_once(st, L_SUBSCRIBED, &input, format!("group ({exchange}, {kind})"), "a venue of the collection".into()); continue; };
+            let model: Vec<&US> = batches[b].iter().filter(|u| u.x.v == v && u.sk == sk).collect();
+            if model.is_empty() { fail_once(st, L_SUBSCRIBED, &input, format!("group ({exchange}, {kind}) of batch #{b} without user subscription"), "groups of user subscriptions".into()); continue; }
+            let list: Vec<Inst> = model.iter().map(|u| u.x.i).collect();
+            let keys: Vec<InstrumentIndex> = model.iter().map(|u| index_of(ix, &u.x).expect("instrument of the collection")).collect();
+            let venue_universe: Vec<Inst> = universe.iter().filter(|x| x.v == v).map(|x| x.i).collect();
+            let msgs = messages(v, &list, &venue_universe, salt + b);
+            let payloads: Vec<String> = msgs.iter().map(|m| payload(v, sk, m)).collect();
+            let flavour = || format!("Keyed<InstrumentIndex, MarketDataInstrument> from index_market_data_subscription_batches + DynamicStreams::init grouping (socket of batch #{b}) over {}; user subscription batches {}", describe_world(ix, world), describe_batches(batches));
+            route!(st, Chunk { v, sk, subs, flavour: &flavour, list: &list, keys: &keys, msgs: &msgs, payloads: &payloads }, Keyed<InstrumentIndex, MarketDataInstrument>);
+        }
+    }
+}
+
+/// path (B): subscriptions generated from the collection itself (every instrument x every sub kind, one batch per exchange)
+fn flow_generated(st: &mut St, world: &[XI], ix: &IndexedInstruments, kinds: &[SK], salt: usize, universe: &[XI]) {
+    let input = || format!("{}; generate_indexed_market_data_subscription_batches for {kinds:?}", describe_world(ix, world));
+    let generated = generate_indexed_market_data_subscription_batches(ix, &kinds.iter().map(|sk| sub_kind(*sk)).collect::<Vec<_>>());
+    st.n += generated.iter().map(|b| b.len() as u64).sum::<u64>();
+    for sk in kinds {
+        let keys: Vec<InstrumentIndex> = generated.iter().flatten().filter(|sub| sub.kind == sub_kind(*sk)).map(|sub| sub.instrument.key).collect();
+        let distinct: HashSet<InstrumentIndex> = keys.iter().copied().collect();
+        if distinct.len() != keys.len() {
+            fail_once(st, L_IDX_DISTINCT, &input, format!("{sk:?} subscriptions keyed {:?}", keys.iter().map(|k| k.0).collect::<Vec<_>>()), format!("{} distinct indices", world.len()));
+        }
+    }
+    let groups = match chunks(generated) {
+        Ok(groups) => groups,
+        Err(e) => { fail_once(st, L_SUBSCRIBED, &input, format!("validate_batches rejected the generated subscriptions: {}", clip(e)), "accepted: every (exchange, instrument kind, sub kind) is supported".into()); return; }
+    };
+    for (b, groups) in groups.into_iter().enumerate() {
+        for (exchange, kind, subs) in groups {
+            let Some((v, sk)) = venue_of(exchange, kind) else { fail_once(st, L_SUBSCRIBED, &input, format!("group ({exchange}, {kind})"), "a venue of the collection".into()); continue; };
+            let model: Vec<&XI> = world.iter().filter(|x| x.v == v).collect();
+            let list: Vec<Inst> = model.iter().map(|x| x.i).collect();
+            let keys: Vec<InstrumentIndex> = model.iter().map(|x| index_of(ix, x).expect("instrument of the collection")).collect();
+            let venue_universe: Vec<Inst> = universe.iter().filter(|x| x.v == v).map(|x| x.i).collect();
+            let msgs = messages(v, &list, &venue_universe, salt + b);
+            let payloads: Vec<String> = msgs.iter().map(|m| payload(v, sk, m)).collect();
+            let flavour = || format!("MarketInstrumentData<InstrumentIndex> from generate_indexed_market_data_subscription_batches for {kinds:?} + DynamicStreams::init grouping (socket of batch #{b}) over {}", describe_world(ix, world));
+            route!(st, Chunk { v, sk, subs, flavour: &flavour, list: &list, keys: &keys, msgs: &msgs, payloads: &payloads }, MarketInstrumentData<InstrumentIndex>);
+        }
+    }
+}
+
+/// every instrument x every sub kind of its venue in one batch, skipping an instrument that clashes with one already taken
+fn all_of(world: &[XI], rev: bool) -> Vec<US> {
+    let order: Vec<&XI> = if rev { world.iter().rev().collect() } else { world.iter().collect() };
+    let mut taken: Vec<(&XI, String)> = vec![];
+    for x in order { let m = x.market(); if !taken.iter().any(|(t, tm)| t.v == x.v && t.i != x.i && *tm == m) { taken.push((x, m)); } }
+    taken.iter().flat_map(|(x, _)| sks(x.v).iter().map(|sk| US { x: **x, sk: *sk })).collect()
+}
+
+/// one collection: path (A) with everything subscribed (both orders), with every instrument on a socket of its own, with `random` seeded random
+/// batch sets, with every instrument of `absent` that is not in the collection (alone, and behind a present one); path (B)
+fn explore(st: &mut St, rng: &mut Rng, salt: &mut usize, world: &[XI], random: usize, absent: &[XI], universe: &[XI]) {
+    let ix = IndexedInstruments::new(world.iter().map(XI::instrument));
+    let input = || describe_world(&ix, world);
+    let own: Vec<Option<InstrumentIndex>> = world.iter().map(|x| index_of(&ix, x)).collect();
+    st.n += world.len() as u64;
+    if own.iter().any(Option::is_none) || own.iter().copied().collect::<HashSet<_>>().len() != world.len() {
+        fail_once(st, L_IDX_DISTINCT, &input, format!("{} instruments indexed {:?}", ix.instruments().len(), own), format!("{} distinct indices", world.len()));
+        return;
+    }
+    let mut sets: Vec<Vec<Vec<US>>> = vec![vec![all_of(world, false)], vec![all_of(world, true)], world.iter().map(|x| sks(x.v).iter().map(|sk| US { x: *x, sk: *sk }).collect()).collect()];
+    for _ in 0..random {
+        sets.push((0..1 + rng.below(3)).map(|_| {
+            let mut batch: Vec<US> = vec![];
+            for _ in 0..1 + rng.below(8) {
+                let x = world[rng.below(world.len() as u64) as usize];
+                if batch.iter().any(|u| clash(&u.x, &x)) { continue; }
+                let kinds = sks(x.v);
+                batch.push(US { x, sk: kinds[rng.below(kinds.len() as u64) as usize] });
+            }
+            batch
+        }).collect());
+    }
+    for x in absent.iter().filter(|x| !world.contains(x)) {
+        sets.push(vec![vec![US { x: *x, sk: SK::Trades }]]);
+        sets.push(vec![vec![US { x: world[rng.below(world.len() as u64) as usize], sk: SK::Trades }, US { x: *x, sk: SK::Trades }]]);
+    }
+    for batches in &sets { *salt += 1; flow_indexed(st, world, &ix, batches, *salt, universe); }
+    // path (B) names the markets by `name_exchange`: one instrument per venue market
+    let mut single: Vec<XI> = vec![];
+    for x in world { if !single.iter().any(|s| clash(s, x)) { single.push(*x); } }
+    let ixb = if single.len() == world.len() { ix } else { IndexedInstruments::new(single.iter().map(XI::instrument)) };
+    *salt += 1;
+    flow_generated(st, &single, &ixb, &[SK::Trades], *salt, universe);
+    if single.iter().all(|x| sks(x.v).contains(&SK::L1)) { *salt += 1; flow_generated(st, &single, &ixb, &[SK::Trades, SK::L1], *salt, universe); }
+}
+
+fn run_indexed(st: &mut St, seed: u64, thorough: bool) {
+    let universe = indexed_universe();
+    let mut rng = Rng::seeded(seed, 1313);
+    let mut salt = 0usize;
+    // per venue: every collection of one instrument (every other instrument of the venue is absent) and of two instruments (first: small witnesses)
+    for v in ALL_V {
+        let of_venue: Vec<XI> = universe.iter().filter(|x| x.v == v).copied().collect();
+        for a in 0..of_venue.len() {
+            explore(st, &mut rng, &mut salt, &[of_venue[a]], 0, &of_venue, &universe);
+            for b in a + 1..of_venue.len() {
+                explore(st, &mut rng, &mut salt, &[of_venue[a], of_venue[b]], 0, &[], &universe);
+            }
+        }
+    }
+    // the whole universe as one collection
+    explore(st, &mut rng, &mut salt, &universe, if thorough { 400 } else { 20 }, &[], &universe);
+    // seeded random collections over several venues; everything else of the universe is absent
+    for _ in 0..if thorough { 600 } else { 12 } {
+        let keep = 1 + rng.below(3);
+        let mut world: Vec<XI> = universe.iter().filter(|_| rng.chance(keep, 4)).copied().collect();
+        if world.is_empty() { world.push(universe[rng.below(universe.len() as u64) as usize]); }
+        // collections are built from instruments in any order
+        for k in (1..world.len()).rev() { world.swap(k, rng.below(k as u64 + 1) as usize); }
+        // `index_market_data_subscription_batches` renders the whole collection (eager error text) per subscription: a few absent instruments only
+        // (the one-instrument collections above cover every absent instrument of a venue)
+        let mut absent: Vec<XI> = universe.iter().filter(|x| !world.contains(x)).copied().collect();
+        for k in (1..absent.len()).rev() { absent.swap(k, rng.below(k as u64 + 1) as usize); }
+        absent.truncate(6);
+        explore(st, &mut rng, &mut salt, &world, 4, &absent, &universe);
     }
 }
 
@@ -339,5 +682,6 @@ pub fn run(seed: u64, thorough: bool) -> u64 {
     venue!(st, lists, V::GatePerpBtc, SK::Trades, GateioPerpetualsBtc, PublicTrades, PublicTrades, GateioFuturesTrades, true);
     venue!(st, lists, V::GateOpt, SK::Trades, GateioOptions, PublicTrades, PublicTrades, GateioFuturesTrades, true);
     venue!(st, lists, V::Bitmex, SK::Trades, Bitmex, PublicTrades, PublicTrades, BitmexTrade, true);
+    run_indexed(st, seed, thorough);
     st.n
 }
